@@ -218,8 +218,123 @@ def check_C15(K, prop, tier, seed, t0):
                   "(token soup and edited well-formed patterns); build must return Err exactly when the specification says so and never panic")
 
 
+def check_C18(K, prop, tier, seed, t0):
+    q = tier == "quick"
+    n = 100 if q else 2000
+    tabs = [K.emit_tables(prop, "tab-la", dict(CFGS="U_C04", SYMS="Syms_C04", HI=300 if q else 3000)),
+            K.emit_tables(prop, "tab-graphs", dict(CFGS="U_C06", SYMS="Syms_C06", HI=200 if q else 2000))]
+    sources = ["tables:" + t for t in tabs] + [f"random:c04:{n}:{seed}", f"random:c06:{n}:{seed}", "corpus"]
+    out = os.path.join(K.WORK, f"{prop}-{os.getpid()}", "dot")
+    scratch = os.path.join(K.WORK, f"{prop}-{os.getpid()}", "dotscratch")
+    p = subprocess.run([K.HARNESS, "dotcheck", out, scratch] + sources, env=K.base_env(), stdout=subprocess.PIPE, stderr=subprocess.PIPE, text=True)
+    if p.returncode != 0:
+        K.log(p.stderr[-2000:]); raise K.ToolError("dotcheck failed")
+    info = json.loads(p.stdout.strip().splitlines()[-1])
+    cases_path = os.path.join(out, "dotcases.json")
+    d = K.leg_dir(prop, "picture")
+    with open(os.path.join(d, "d.cfg"), "w") as f:
+        f.write("INIT DInit\nNEXT DNext\nINVARIANT DReport\nCHECK_DEADLOCK FALSE\n")
+    pr = subprocess.run(K.tlc_cmd(1, os.path.join(d, "md"), "d.cfg", "DotPicture.tla"), cwd=d, env=K.tlc_env({"VERIF_CASES": cases_path}),
+                        stdout=subprocess.PIPE, stderr=subprocess.STDOUT, text=True)
+    lines = pr.stdout.splitlines()
+    gen, dist, errs = K.parse_tlc(lines)
+    if pr.returncode != 0 or errs or gen is None:
+        K.log("\n".join(lines[-30:])); raise K.ToolError("DotPicture: TLC failed")
+    bad = [int(l.split(",")[1].strip(" >")) for l in lines if l.startswith('<<"DOT-DIFF"')]
+    with open(cases_path) as f:
+        cases = json.load(f)
+    with open(os.path.join(out, "dotmeta.json")) as f:
+        meta = json.load(f)
+    K.log(f"[dot] {info['programs']} programs, {len(cases)} cases ({info['files']} files parsed), {len(bad)} differences")
+    vdir = os.path.join(out, "viol"); os.makedirs(vdir, exist_ok=True)
+    files = []
+    for k in bad:
+        c = cases[k - 1]
+        v = dict(kind="dot", case_kind=c["kind"], origin=c.get("origin"), mode_name=c.get("name"), file=c.get("file"), returned=c.get("returned"),
+                 wellformed=c.get("wellformed"), parse_error=c.get("error"), what=c.get("what"), listed=c.get("listed"), expected=c.get("expected"),
+                 configurations=[meta[k - 1]], inputs=[c.get("name") or c.get("what") or ""], calls_specified=[],
+                 difference=("exported file is not well-formed DOT: " + c.get("error", "")) if c["kind"] == "file" and not c.get("wellformed")
+                            else "the exported artefact is not the picture of the compiled automaton (DotPicture!CaseOK fails)")
+        path = os.path.join(vdir, f"v{len(files)}.json")
+        with open(path, "w") as f:
+            json.dump(v, f, ensure_ascii=False, indent=1)
+        files.append(path)
+    unknown = K.report_violations(prop, files, len(files))
+    fc = [c for c in cases if c["kind"] == "file"]
+    samples = [{"mode": c["name"], "file": c["file"], "states": c["dump"]["n"], "edges": len(c["dump"]["trans"]), "lookaheads": len(c["dump"]["la"])} for c in fc[:2] + fc[-2:]]
+    cov = dict(programs=len(fc), disagreements_checked=len(bad), samples=samples, states=dist, transitions=gen,
+               evaluations=len(cases), distinct_nontrivial=sum(1 for c in fc if c["dump"]["n"] > 2),
+               rule="one program = one exported file (mode) compared by TLC with the picture of its dumped automaton; plus one directory-listing "
+                    "case per configuration and three fault cases (missing folder, parent is a file, target is a file); non-trivial = more than 2 states",
+               sources=sources, fault_cases=sum(1 for c in cases if c["kind"] == "fault"))
+    K.write_evidence(prop, tier, seed, "translation_validation", cov,
+                     ["the harness' strict DOT parser (Graphviz subset dot-writer emits: digraph, attributes, nodes, edges, one level of subgraphs)",
+                      "verif_dump is a faithful copy of the compiled automata", "mode names are restricted to characters valid in a file name (no '/')"],
+                     time.time() - t0, len(files))
+    return 1 if unknown else 0
+
+
+def check_C16(K, prop, tier, seed, t0):
+    d = K.leg_dir(prop, "serde")
+    pool = os.path.join(d, "pool.json"); emitted = os.path.join(d, "emitted.ndjson"); back = os.path.join(d, "back.ndjson")
+    subprocess.run([K.HARNESS, "serde", "pool", pool], check=True, env=K.base_env())
+    with open(os.path.join(d, "s.cfg"), "w") as f:
+        f.write("INIT SInit\nNEXT SNext\nINVARIANT SReport\nINVARIANT SComplete\nCHECK_DEADLOCK FALSE\n")
+    env = {"VERIF_POOL": pool, "VERIF_OUT": emitted, "VERIF_BACK": back}
+    def tlc(phase):
+        pr = subprocess.run(K.tlc_cmd(1, os.path.join(d, "md-" + phase), "s.cfg", "SerdeLayout.tla"), cwd=d,
+                            env=K.tlc_env(dict(env, VERIF_PHASE=phase)), stdout=subprocess.PIPE, stderr=subprocess.STDOUT, text=True)
+        lines = pr.stdout.splitlines()
+        gen, dist, errs = K.parse_tlc(lines)
+        if pr.returncode != 0 or errs or gen is None:
+            K.log("\n".join(lines[-30:])); raise K.ToolError(f"SerdeLayout {phase}: TLC failed")
+        return lines, gen, dist
+    tlc("emit")
+    p = subprocess.run([K.HARNESS, "serde", "run", emitted, back, "/repo/README.md"], env=K.base_env(), stdout=subprocess.PIPE, stderr=subprocess.PIPE, text=True)
+    if p.returncode != 0:
+        K.log(p.stderr[-2000:]); raise K.ToolError("harness serde failed")
+    lines, gen, dist = tlc("check")
+    bad = [int(l.split(",")[1].strip(" >")) for l in lines if l.startswith('<<"SERDE-DIFF"')]
+    missing = [l for l in lines if l.startswith('<<"SERDE-MISSING"')]
+    with open(back) as f:
+        backs = [json.loads(l) for l in f]
+    with open(emitted) as f:
+        ems = [json.loads(l) for l in f]
+    K.log(f"[serde] {len(ems)} values emitted by TLC, {len(backs)} lines back, {len(bad)} differences, missing={bool(missing)}")
+    vdir = os.path.join(d, "viol"); os.makedirs(vdir, exist_ok=True)
+    files = []
+    for k in bad:
+        b = backs[k - 1]
+        em = ems[b["id"] - 1] if b.get("id") else None
+        v = dict(kind="serde", value_kind=b["kind"], configurations=[em["value"] if em else "README.md json block"], inputs=[], calls_specified=[],
+                 rust_side=b, difference="serialisation round trip differs (see rust_side flags; 'value' is serde's text read back by TLC)")
+        path = os.path.join(vdir, f"v{len(files)}.json")
+        with open(path, "w") as f:
+            json.dump(v, f, ensure_ascii=False, indent=1)
+        files.append(path)
+    if missing:
+        path = os.path.join(vdir, "missing.json")
+        with open(path, "w") as f:
+            json.dump(dict(kind="serde", configurations=[], inputs=[], calls_specified=[], difference="not every emitted value came back: " + missing[0]), f)
+        files.append(path)
+    unknown = K.report_violations(prop, files, len(files))
+    nmodes = sum(1 for e in ems if e["kind"] == "modes")
+    cov = dict(states=max(1, dist), transitions=max(1, gen), traces_validated_against_impl=len(backs), evaluations=len(backs),
+               distinct_nontrivial=nmodes, samples=[ems[3], ems[nmodes - 1], ems[-1]],
+               rule="TLC enumerates mode lists (names/patterns from a pool with quotes, backslashes, control and non-ASCII characters; lookahead "
+                    "absent/positive/negative; 0-2 transitions; 1-2 modes) and Span/Position/Match/MatchExt values, writes them with its own "
+                    "serialiser; Rust deserialises, compares with API-built values, re-serialises, builds and scans; TLC reads serde's text back",
+               exhaustive=True)
+    K.write_evidence(prop, tier, seed, "model_checking", cov,
+                     ["TLC's Json module (layout oracle) and serde_json", "TLC integers are 32-bit: numeric fields are explored up to 2^31-1 only",
+                      "identical behaviour is judged by scanning four probe inputs with both scanners"], time.time() - t0, len(files))
+    return 1 if unknown else 0
+
+
 CHECKS = {
     "C01": check_C01,
+    "C16": check_C16,
+    "C18": check_C18,
     "C15": check_C15,
     "C13": check_C13,
     "C02": equiv_check(("mode", "la"), "compiled automaton vs position automaton of the source patterns"),
